@@ -14,10 +14,15 @@ M128 == 0 - 128
 S4  == M8..7
 U4  == 0..15
 
-\* boundary-biased 8-bit arguments: the bounds and their neighbours, 0, +-1, +-2, 3,
-\* a few values whose multiples do / do not reach the bounds
-S8q == {0 - 128, 0 - 127, 0 - 126, 0 - 100, 0 - 2, 0 - 1, 0, 1, 2, 3, 100, 126, 127}
-U8q == {0, 1, 2, 3, 5, 100, 127, 128, 200, 250, 253, 254, 255}
-S8t == S8q \cup {0 - 125, 0 - 64, 0 - 63, 0 - 17, 0 - 7, 0 - 5, 0 - 3, 5, 7, 17, 63, 64, 85, 124, 125}
-U8t == U8q \cup {4, 7, 15, 16, 17, 51, 63, 64, 85, 126, 129, 199, 251, 252}
+\* boundary-biased 8-bit arguments: the bounds and their neighbours, 0, +-1, +-2, a value far from
+\* everything; steps additionally 3 (does not divide the spans) and values whose multiples do / do not
+\* reach the bounds.  q = quick tier, t = thorough tier.
+S8q  == {0 - 128, 0 - 127, 0 - 126, 0 - 100, 0 - 1, 0, 1, 2, 100, 126, 127}
+S8qs == S8q \cup {0 - 2, 3}
+U8q  == {0, 1, 2, 5, 100, 127, 128, 200, 250, 254, 255}
+U8qs == U8q \cup {3, 253}
+S8t  == S8q \cup {0 - 125, 0 - 64, 0 - 63, 0 - 17, 0 - 7, 0 - 5, 0 - 3, 0 - 2, 3, 5, 7, 17, 63, 64, 85, 124, 125}
+S8ts == S8t
+U8t  == U8q \cup {3, 4, 7, 15, 16, 17, 51, 63, 64, 85, 126, 129, 199, 251, 252, 253}
+U8ts == U8t
 =============================================================================
